@@ -8,6 +8,8 @@ Streams
   law       as weights, but EVERY answer sequence of the oracle is enumerated (samples_needed <= 3):
             each leaf is a weights case; the aggregated expectation is compared with expected_weight
   public    generate_qpd_weights on QPDBasis objects (final stable sort)
+  public-history  as public, but the QPDBasis objects are RE-USED: built with other coefficient vectors, touched
+            (probabilities read / weights generated / untouched), then given the case's vectors through the coeffs setter
   gates     real gate bases (cx, rzz(0.3), swap, ...) : structure exact, numbers within 1e-9
   malformed N < 1 / NaN / -inf, all-zero basis, empty basis
 
@@ -675,6 +677,7 @@ def generate(rng, tier, outdir):
 
     w.contract("law_stream_nonempty", law_done > 0)
     gen_public(rng, tier, w, n_public)
+    gen_public_history(rng, tier, w, 40 if quick else 300)
     gen_gates(rng, tier, w, n_gates)
     gen_gates_public(rng, tier, w, max(6, n_gates // 4))
     # the property-level oracle must accept what the unchanged tree produces (a spread sample of all cases)
@@ -691,7 +694,9 @@ def generate(rng, tier, outdir):
         rule="dyadic probability vectors (1-4 bases x 1-8 maps, thorough up to 58; zeros, ties, entries 2^-44..2^-50 on both sides of the "
              "1e-14 cut-off, single-map bases) under a 53-bit mantissa budget so that binary64 is exact; N integer / fractional dyadic / inf; "
              "sorted stream also feeds non-descending vectors; weights stream replaces numpy.random.choice by a recording stub (seeded draws), "
-             "law stream enumerates every answer sequence for samples_needed<=3; public stream through QPDBasis; gates stream = real bases "
+             "law stream enumerates every answer sequence for samples_needed<=3; public stream through QPDBasis; public-history stream = the same "
+             "on RE-USED QPDBasis objects (1-2 earlier coefficient vectors, probabilities read / weights generated / untouched, then the "
+             "case's vectors assigned through the coeffs setter); gates stream = real bases "
              "with 1e-9 tolerance; malformed = N<1/NaN/-inf, all-zero or all-sub-cutoff basis. distinct = distinct Coq case literal; "
              "non-trivial = more than one yield / more than one returned entry",
         extra=dict(extra=dict(float_ambiguous_skipped=skipped)))
@@ -818,6 +823,97 @@ def gen_public(rng, tier, w, n):
         w.count("public.num_samples_form", form)
         w.count("public.outcome", outcome_class(r, stub))
         w.count("public.types", "+".join(sorted({t for _, _, t in items})) if items else "-")
+
+
+# --------------------------------------------------------------------------------------
+# histories: QPDBasis objects that were used before with OTHER coefficient vectors
+# --------------------------------------------------------------------------------------
+TOUCHES = ["probabilities", "generate", "generate-inf", "none"]
+
+
+def signed_coeffs(v, scale, signs):
+    return [float(x * scale) * s for x, s in zip(v, signs)]
+
+
+def touch_bases(bases, how):
+    """what an earlier user of the objects did with them (outcome irrelevant; the real numpy sampler, fixed seed)"""
+    if how == "probabilities":
+        for b in bases:
+            call_canon(lambda b=b: list(b.probabilities))
+    elif how in ("generate", "generate-inf"):
+        np.random.seed(20240)
+        call_canon(generate_qpd_weights, bases, 8.0 if how == "generate" else math.inf)
+
+
+def make_bases_history(probs, scales, signs, history):
+    """history = [dict(vecs=[[jq signed coefficient]], touch=...)]: the objects are constructed with the first step's
+    vectors, touched, re-assigned (public coeffs setter) and touched for every further step, and finally given the
+    case's coefficients +-probs*scale through the setter.  The property's probabilities are those of the CURRENT
+    coefficients: |c| / sum|c| = probs."""
+    first = history[0]
+    bases = [QPDBasis([([],)] * len(c), [float(unq(x)) for x in c]) for c in first["vecs"]]
+    touch_bases(bases, first["touch"])
+    for step in history[1:]:
+        for b, c in zip(bases, step["vecs"]):
+            b.coeffs = [float(unq(x)) for x in c]
+        touch_bases(bases, step["touch"])
+    for b, v, sc, sg in zip(bases, probs, scales, signs):
+        b.coeffs = signed_coeffs(v, sc, sg)
+    return bases
+
+
+def gen_public_history(rng, tier, w, n):
+    """TARGETED stream for the quantifier's 'histories': the bases handed to generate_qpd_weights are objects with a past."""
+    done = 0
+    attempts = 0
+    while done < n and attempts < 30 * n:
+        attempts += 1
+        probs, K = gen_probs(rng, tier, force_tiny=False)
+        N = gen_N(rng, K)
+        if not budget_ok(K, N) or not threshold_safe(N, K) or n_joint(probs) > 3000:
+            continue
+        if done % 8 != 7 and all(len(v) == 1 for v in probs):
+            continue                                   # a single-map basis has only one probability vector
+        scales = [int(rng.choice([1, 2, 4])) for _ in probs]
+        signs = [[int(rng.choice([-1, 1])) for _ in v] for v in probs]
+        history = []
+        for _ in range(int(rng.choice([1, 1, 2]))):
+            vecs = []
+            for v in probs:
+                pv, _k = dyadic_vec(rng, len(v), 4)
+                sc = int(rng.choice([1, 2, 4]))
+                vecs.append([jq(x * sc * int(rng.choice([-1, 1]))) for x in pv])
+            history.append(dict(vecs=vecs, touch=TOUCHES[int(rng.integers(0, len(TOUCHES)))]))
+        form = "float" if not (isinstance(N, Fraction) and N.denominator == 1 and rng.integers(0, 2)) else "int"
+        rb = call_canon(make_bases_history, probs, scales, signs, history)
+        if rb[0] != "ok":
+            r, stub = rb, ChoiceStub(None)
+        else:
+            r, stub = run_public(rb[1], N, seeded_policy(rng), form)
+        if len(stub.tape) > 3000:
+            w.count("weights.oversize_skipped", "public-history")
+            continue
+        perms = argsort_perms(probs)
+        if r[0] == "ok":
+            items = canon_dict(r[1])
+            exp, impl = Res("ok", coq_dict(items)), ["ok", jdict(items)]
+        else:
+            items, exp, impl = [], Res(r[0]), [r[0], r[1]]
+        tl = tols_for(N, stub.calls)
+        coeffs = [[x * sc * sg for x, sg in zip(v, sgs)] for v, sc, sgs in zip(probs, scales, signs)]
+        w.add("public-history", "chk_public_coeffs",
+              (coq_probs(coeffs), perms, coq_num(N), list(stub.tape), tuple(cq(t) for t in tl), exp),
+              dict(kind="weights", public=True, probs=[[jq(x) for x in v] for v in probs], N=jnum(N), tape=list(stub.tape),
+                   perms=perms, impl=impl, exact=True, scales=scales, signs=signs, form=form, history=history,
+                   args_modified=list(stub.args_modified)),
+              nontrivial=(len(items) > 1))
+        done += 1
+        w.count("public-history.steps", len(history))
+        w.count("public-history.last_touch", history[-1]["touch"])
+        w.count("public-history.vector_changed",
+                "yes" if any([abs(unq(x)) / sum(abs(unq(y)) for y in c) for x in c] != list(v) for c, v in zip(history[-1]["vecs"], probs)) else "no")
+        w.count("public-history.outcome", outcome_class(r, stub))
+    w.contract("public_history_stream_nonempty", done > 0)
 
 
 def gate_table():
@@ -1198,6 +1294,9 @@ def rerun(case):
         if case.get("from_instruction"):
             gt = gate_table()
             r, stub = run_public([QPDBasis.from_instruction(gt[c]) for c in case["from_instruction"]], N, pol, case.get("form", "float"))
+        elif case.get("public") and case.get("history"):
+            rb = call_canon(make_bases_history, probs, case["scales"], case["signs"], case["history"])
+            r, stub = (rb, None) if rb[0] != "ok" else run_public(rb[1], N, pol, case.get("form", "float"))
         elif case.get("public"):
             rb = call_canon(lambda: [make_basis(v, s, sg) for v, s, sg in zip(probs, case["scales"], case["signs"])])
             r, stub = (rb, None) if rb[0] != "ok" else run_public(rb[1], N, pol, case.get("form", "float"))
